@@ -7,7 +7,7 @@
       1 = property-level disagreement (violation candidate),
       2 = dense meaning agrees but the stored structure differs from the model's
           (reported in the evidence as information, not a violation). *)
-From Coq Require Import List Arith ZArith NArith Lia Bool.
+From Coq Require Import List Arith ZArith NArith Lia Bool Floats.
 Import ListNotations.
 Require Import Clarabel.Base.Ops Clarabel.Csc.Model.
 
@@ -149,11 +149,11 @@ Definition c_lrscale (inp : rawZ) (l r : list Z) (out : rawZ) : N :=
   rel out (lrscale OpsZ (decode inp) l r).
 
 Definition c_gemv (inp : rawZ) (x y : list Z) (a b : Z) (yout : list Z) : N :=
-  ofb (zlist_eqb yout (gemv OpsZ (decode inp) x y a b)).
+  ofb (zlist_eqb yout (gemv_fast OpsZ (decode inp) x y a b)).
 Definition c_gemv_T (inp : rawZ) (x y : list Z) (a b : Z) (yout : list Z) : N :=
-  ofb (zlist_eqb yout (gemv_T OpsZ (decode inp) x y a b)).
+  ofb (zlist_eqb yout (gemv_T_fast OpsZ (decode inp) x y a b)).
 Definition c_symv (inp : rawZ) (x y : list Z) (a b : Z) (yout : list Z) : N :=
-  ofb (zlist_eqb yout (symv OpsZ (decode inp) x y a b)).
+  ofb (zlist_eqb yout (symv_coded OpsZ (decode inp) x y a b)).
 Definition c_quad_form (inp : rawZ) (y x : list Z) (out : outcome Z) : N :=
   match out, quad_form OpsZ (decode inp) y x with
   | Out q, Some q' => ofb (Z.eqb q q')
@@ -177,6 +177,61 @@ Definition c_row_norms_from (inp : rawZ) (s out : list Z) : N :=
   ofb (zlist_eqb out (row_norms_from OpsZ (decode inp) s)).
 Definition c_col_norms_sym_from (inp : rawZ) (s out : list Z) : N :=
   ofb (zlist_eqb out (col_norms_sym_from OpsZ (decode inp) s)).
+
+(** ** binary64 level: the coded branches of gemv / gemv_T / symv run on primitive floats and
+    are compared with the implementation's output bit for bit (all NaNs identified; the sign
+    of zero matters).  This is where the fast paths are observable: [b = 0] overwrites [y]
+    (garbage, even non-finite, disappears, and the zeros written are +0), [a = 0] returns
+    before [A] and [x] are read, the general path computes [0 * garbage]. *)
+Definition rawF := @raw float.
+Definition RF (m n : N) (cp rv : list N) (nz : list float) : rawF :=
+  mkRaw (N.to_nat m) (N.to_nat n) (map N.to_nat cp) (map N.to_nat rv) nz.
+Arguments RF (m n cp rv)%N nz.
+Definition fbits_eqb (a b : float) : bool :=
+  if PrimFloat.is_nan a then PrimFloat.is_nan b
+  else if PrimFloat.is_nan b then false
+  else if PrimFloat.is_zero a
+       then PrimFloat.is_zero b && Bool.eqb (PrimFloat.get_sign a) (PrimFloat.get_sign b)
+       else PrimFloat.eqb a b.
+Definition flist_eqb := list_eqb fbits_eqb.
+Definition c_gemv_F (inp : rawF) (x y : list float) (a b : float) (yout : list float) : N :=
+  ofb (flist_eqb yout (gemv_fast OpsF (decode inp) x y a b)).
+Definition c_gemv_T_F (inp : rawF) (x y : list float) (a b : float) (yout : list float) : N :=
+  ofb (flist_eqb yout (gemv_T_fast OpsF (decode inp) x y a b)).
+Definition c_symv_F (inp : rawF) (x y : list float) (a b : float) (yout : list float) : N :=
+  ofb (flist_eqb yout (symv_coded OpsF (decode inp) x y a b)).
+
+(** ** structural queries on any dimension-consistent encoding (unsorted, duplicated, ...) *)
+Definition c_raw_index_to_coord (inp : rawZ) (idx : N) (out : outcome (N * N)) : N :=
+  match out, raw_index_to_coord inp (N.to_nat idx) with
+  | Out (i, j), Some (i', j') => ofb ((N.to_nat i =? i') && (N.to_nat j =? j'))
+  | Panicked, None => 0%N
+  | _, _ => 1%N
+  end.
+Definition c_count_diag (inp : rawZ) (triu tril : N) : N :=
+  ofb ((N.to_nat triu =? count_diag_triu (decode inp)) && (N.to_nat tril =? count_diag_tril (decode inp))).
+(** the missing-diagonal pipeline: the stored structure matters here (every diagonal position
+    must be stored), so a structural difference is a disagreement *)
+Definition c_add_missing_diag (inp : rawZ) (out : outcome rawZ) : N :=
+  match out with
+  | Out r =>
+      let K := add_missing_diag OpsZ (decode inp) in
+      if N.eqb (rel r K) 0 then
+        ofb (forallb (fun j => match get_entry (decode r) j j with Some _ => true | None => false end)
+                     (seq 0 (rn r))
+             && (length (rrowval r) =? nnz (decode inp) + count_missing_diag (decode inp)))
+      else 1%N
+  | _ => 1%N
+  end.
+(** round trips: [t2] is the implementation's to_triu of [t]; [s] the full symmetric matrix the
+    harness built from the upper triangle [t]; [ts] the implementation's to_triu of [s] *)
+Definition c_triu_idem (t t2 : rawZ) : N := ofb (same_struct (decode t2) (decode t)).
+Definition c_sym_roundtrip (t s : rawZ) (ts : outcome rawZ) : N :=
+  if negb (dense_eqb (to_dense OpsZ (decode s)) (sym_dense OpsZ (decode t))) then 1%N
+  else match ts with
+       | Out r => andc (rel r (to_triu (decode s))) (ofb (same_dense (decode r) (decode t)))
+       | _ => 1%N
+       end.
 
 (** ** independent dense oracles (used by the failing-input search and as a second opinion:
     they do not go through the sparse model at all) *)
